@@ -24,6 +24,9 @@ var a6Funcs = map[string][]string{
 	"internal/lossless": {"Decoder.decodeHeader"},
 }
 
+// animation decode side: everything in package animation reachable from these
+var a6AnimEntries = []string{"Decode", "DecodeBytes", "Animation.DecodeFrames", "Animation.DecodeFramesParallel", "NewAnimDecoder", "AnimDecoder.NextFrame", "AnimDecoder.Reset", "AnimDecoder.HasNext", "AnimDecoder.Canvas"}
+
 type a6 struct {
 	c    *Ctx
 	p    *Program
@@ -129,6 +132,30 @@ func (a *a6) scopeFuncs() []*ssa.Function {
 			}
 			add(f)
 		}
+	}
+	var roots []*ssa.Function
+	for _, name := range a6AnimEntries {
+		f := a.p.Fn("animation", name)
+		if f == nil {
+			a.c.AnchorMissing("A6-bounds", "animation."+name)
+			continue
+		}
+		roots = append(roots, f)
+	}
+	animPkg := a.p.Pkg("animation")
+	var reach []*ssa.Function
+	for f := range a.p.Reachable(roots...) {
+		root := f
+		for root.Parent() != nil {
+			root = root.Parent()
+		}
+		if animPkg != nil && root.Pkg != nil && root.Pkg.Pkg.Path() == animPkg.PkgPath {
+			reach = append(reach, f)
+		}
+	}
+	sort.Slice(reach, func(i, j int) bool { return FnName(reach[i]) < FnName(reach[j]) })
+	for _, f := range reach {
+		add(f)
 	}
 	sort.Slice(out, func(i, j int) bool { return out[i].Pos() < out[j].Pos() })
 	return out
